@@ -85,5 +85,10 @@ pub fn generate(ctx: &mut Ctx) -> bool {
 }
 
 pub fn run_op(ctx: &mut Ctx, op: &str) -> bool {
+    if ctx.hangs >= crate::common::HANG_LIMIT {
+        // enough hangs to report; the remaining cases are not run (and not recorded)
+        ctx.count("not_run_after_hang_limit");
+        return true;
+    }
     dispatch!(ctx, run_op, op)
 }
